@@ -2,6 +2,8 @@ use crate::engine::{CaseResult, Engine, Tier};
 use serde_json::Value;
 
 pub mod c01;
+pub mod c02;
+pub mod c03;
 pub mod c04;
 pub mod c05;
 pub mod c06;
@@ -19,6 +21,8 @@ pub struct Prop {
 pub fn all() -> Vec<Prop> {
     vec![
         Prop { id: "C01", level: "exploration", run: c01::run, replay: c01::replay },
+        Prop { id: "C02", level: "fault_enumeration", run: c02::run, replay: c02::replay },
+        Prop { id: "C03", level: "fault_enumeration", run: c03::run, replay: c03::replay },
         Prop { id: "C04", level: "exploration", run: c04::run, replay: c04::replay },
         Prop { id: "C05", level: "exploration", run: c05::run, replay: c05::replay },
         Prop { id: "C06", level: "exploration", run: c06::run, replay: c06::replay },
